@@ -159,7 +159,9 @@ func (r *Raft) onAppendEntriesRequest(req *appendReq, c *conn) (rpcResult, error
 	r.setLeader(req.src)
 
 	// reply false if log at req.prevLogIndex does not match
-	if req.prevLogIndex > r.snaps.index {
+	// a snapshot taken locally is published by its own goroutine
+	snapIndex, _ := r.snaps.latest()
+	if req.prevLogIndex > snapIndex {
 		if req.prevLogIndex > r.lastLogIndex {
 			return drain(prevEntryNotFound, nil)
 		}
@@ -218,7 +220,7 @@ func (r *Raft) onAppendEntriesRequest(req *appendReq, c *conn) (rpcResult, error
 		}
 		prevTerm := term
 		index, term = ne.index, ne.term
-		if ne.index <= r.snaps.index {
+		if ne.index <= snapIndex {
 			continue
 		}
 		if ne.index <= r.lastLogIndex {
@@ -342,7 +344,7 @@ func (r *Raft) onInstallSnapRequest(req *installSnapReq, c *conn) (rpcResult, er
 
 		// restore fsm from this snapshot
 		r.fsm.ch <- fsmRestoreReq{r.fsmRestoredCh}
-		r.commitIndex = r.snaps.index
+		r.commitIndex, _ = r.snaps.latest()
 
 		// load snapshot config as cluster configuration
 		r.changeConfig(meta.config)
